@@ -6,14 +6,16 @@ always extended together); `labeled : S → Bool` is `is_labeled(y)`. The weight
 `sample_weight_train_`: `some ws` = a deque, `none` = the attribute was set to `None`.
 `deque(maxlen=w).extend(xs)` keeps the last `w` elements of the concatenation (`lastN`).
 The wrapped estimator is `fitFn` (what `deepcopy(self.estimator).fit(X, y, sample_weight)` produces).
-Every call returns the state the object is left in and whether it raised.
+Every call returns the state the object is left in and whether it raised (a raising call leaves the
+object as it was: `Ska.C13w.call_error_atomic`).
 -/
 
 namespace Ska.Window
 
 inductive Err where
-  | value     -- ValueError / TypeError from `_validate_data` (lengths, shapes, window_size)
-  | attr      -- AttributeError: `None.extend(...)` (weights given after a call without weights)
+  | value     -- ValueError / TypeError from `_validate_data` (lengths, shapes, window_size) and from the
+              -- weight-regime check in `_add_samples` (weights given after a call without weights)
+  | attr      -- AttributeError: `None.extend(...)` (old code only, see `Ska.C13w.Regressions`)
   deriving Repr, DecidableEq
 
 /-- last `w` elements (`w = none`: unbounded window) -/
@@ -68,7 +70,7 @@ def call (cfg : Cfg) (labeled : S → Bool) (fitFn : List S → Option (List W) 
       | some d =>
         let sw' := some (lastN cfg.window (d ++ w))
         (⟨buf', sw', some (fitFn buf' sw')⟩, none)
-      | none => (⟨buf', none, s.clf⟩, some .attr)      -- raised after `X_train_`, `y_train_` were extended
+      | none => (s, some .value)      -- weights after a call without weights: rejected before the window is extended
     | none => (⟨buf', none, some (fitFn buf' none)⟩, none)
 
 /-- one call: `(isFit, samples, weights)` -/
